@@ -53,8 +53,10 @@ def model_op(op, alloc, half):
     return " ".join(w)
 
 
-def exists(op, half):
+def exists(op, half, alloc=True):
     w = op.split(" ")
+    if w[0] == "tovecs":
+        return alloc                      # minicbor::to_vec needs alloc
     return not (w[1] == "f16" and not half)
 
 
@@ -142,6 +144,11 @@ def corpus(rng, tier):
         ops.append(f"enc bytes {gen.hexb(gen.rand_bytes(rng, n))}")
         ops.append(f"enc str {gen.hexb(bytes(rng.randint(0x20, 0x7e) for _ in range(n)))}")
     ops += encseq_ops(rng, 1500 if q else 30000)
+    # successive to_vec calls on one thread (alloc and std builds): a result must not depend on the calls before it
+    for _ in range(200 if q else 3000):
+        calls = [rng.choice(["f", "f", f"u8:{rng.choice([0, 5, 24, 255])}", "str:" + gen.hexb(bytes(rng.randint(0x61, 0x7a) for _ in range(rng.choice([0, 1, 5, 24, 300]))))])
+                 for _ in range(rng.randint(1, 6))]
+        ops.append("tovecs " + " ".join(calls))
     return ops
 
 
@@ -172,6 +179,10 @@ def encseq_ops(rng, n):
         cap = 12 if kind == "carr" else rng.choice([0, 1, 2, 3, 5, 6, 8, 9, 12, 16, 24, 40])
         out.append(f"encseq {kind} {cap} " + " ".join(call() for _ in range(rng.randint(1, 8))))
     return out
+
+
+T_IGNORED = ["c11a65a4f2c0", "d9d9f700", "f7", "e0", "f820", "3bffffffffffffffff", "82c100f7", "a1f7c200", "c6c6c6c600", "a201c10002f7", "d8184401020304",
+             "c2490100000000000000" "00", "f93c00", "9fc100ff", "c1", "c11a00", "82c1", "ff"]
 
 
 def serde_corpus(rng, tier):
@@ -218,6 +229,11 @@ def serde_corpus(rng, tier):
         ops.append(f"sde any {x}")
     for v in (0, 9, 10, 255, 65536, 2**64 - 1):
         ops.append(f"sser shown {v}")
+    # IgnoredAny (what a derived struct uses for unknown fields): skips one item whatever it is, in every configuration
+    for t in trees[:200 if q else 3000]:
+        ops.append(f"sde ignored {W.enc(t).hex()}")
+    for x in T_IGNORED:
+        ops.append(f"sde ignored {x}")
     ops += ["sser bool 0", "sser bool 1", "sser unit -", "sser opt_u8 N", "sser opt_u8 200", "sser char 120", "sser char 1114111",
             "sser str 68656c6c6f", "sser str -", "sser tup2 258", "sser arr2 65535", "sser f32 3f800000", "sser f32 7fc00001"]
     return ops
@@ -249,6 +265,8 @@ def streams(rng, tier):
             # documented: without half a half-precision item is a type error, wherever deserialize_any meets it
             if "half" not in CUR[0] and has("f9") and impl.startswith("err type"):
                 return "ok"
+        if w[1] == "ignored" and noalloc and has("9f", "bf") and impl.startswith("err message"):
+            return "ok"                     # documented: without alloc skip() may refuse an indefinite array / map nested in a definite one
         if w[1] == "shown" and noalloc and impl == "err":
             return "ok"                     # documented: collect_str needs alloc
         return "violation"
@@ -289,7 +307,7 @@ def streams(rng, tier):
     for name, feats in CONFIGS:
         alloc = "alloc" in feats or "std" in feats
         half = "half" in feats
-        o = [op for op in ops if exists(op, half)]
+        o = [op for op in ops if exists(op, half, alloc)]
         def judge_cfg(op, impl, model, spec, alloc=alloc, half=half, name=name):
             if cross(op, name, alloc, half, impl) is not None:
                 return "violation"          # two feature configurations answer differently on the same input: a failing input of C20
